@@ -21,7 +21,7 @@ func ngapEntries(c *core.Ctx) []*ssa.Function {
 }
 
 func c03(c *core.Ctx) map[string]interface{} {
-	c.Explanation = "Static check of the inputs and error discipline of the aligned-PER encoder (C03). Decided: (R0.nilglobal) the codec does not dereference a never-initialised package-level pointer on its way (it would panic on every message); (R3.tag) for all structs of ngapType: every aper tag part belongs to the vocabulary the codec parses and its number parses, fields are exported, `optional` sits only on nil-able fields, every CHOICE use site carries valueLB:0,valueUB:n-1 for its n alternatives, ENUMERATED bounds equal the declared enumerators 0..UB, open-type fields name an earlier field, every alternative of an open type has a referenceFieldValue that is unique in its type and equals ProtocolIEID<Field> resp. the procedure code of TS 38.413 9.4.4 for the three message-class containers, <T>Present<Field> constants equal field indices; (R3.schema) every struct of ngapType has exactly the fields, field order, constraint tags and Go types, and every constant (enumerators, Present indices, IE ids, procedure codes) the value, of the frozen TS 38.413 schema table (5630 rows): a widened root, an edited bound, a renumbered enumerator or a moved field changes the encoding of every value of that type and is reported with the row; (R3.types) the tags of the leaf types on the emulator's path equal TS 38.413 9.4.5; (R3.err) in the encoder no error that was created or received is lost: on every path from its creation it is returned or tested, except calls proven infallible (putBitsValue of a constant that fits); (R3.len) the length determinant encoder emits X.691 10.9 forms: one octet 0xxxxxxx up to 127, two octets 10xxxxxx xxxxxxxx up to 16383 (bit provenance), with the same thresholds the decoder uses; (R3.strlen) in the four BIT/OCTET STRING primitives, on every path up to the first length determinant, the count is offset by the lower bound exactly when the size is constrained with ub < 64K and is sent as n itself with the general determinant (X.691 10.9.3.3 / 10.9.3.5), on the encoder and the decoder side; (R3.input) no encoder primitive stores into a byte slice it was handed, the idempotent padding mask of appendBitString excepted: encoding leaves the encoded value unchanged; (R3.underflow) every unsigned `x - c` of the encoder that reaches another primitive (the octets-minus-one length field of large constrained INTEGERs among them) has x >= c on all paths; (R3.int) INTEGER octet counting: constrained ranges above 64K count octets of the non-negative value (shift 8), unconstrained/extended ones of the two's complement value (shift 7); (R3.clone) encoder and decoder agree where they are clones: constrained-whole-number guard chains, octets-of-range loops, length-range guards, SEQUENCE OF bounds and lower-bound handling; (R3.mask) BIT STRING padding bits of the last octet are cleared before they reach the wire; (R3.bits) putBitString and putBitsValue place the bits where the bit stream defines them: for every bit offset 0..7 and every length of 1..33 (putBitsValue: 1..64) bits, with symbolic contents, output stream position p carries input position p - offset, nothing else is set and the offset advances by the length (a finite partition of the primitives' control flow folded on the abstract evaluator, index checks on); (R3.int, on the evaluator) for non-negative values under the constraints 0..2^32-1, 0..2^40-1 and without bounds, the value classes the code distinguishes (shift loops or bits.Len64) are each written with the X.691 number of octets, announced in the length field, and cover the range. NOT decided: bit patterns of strings longer than 33 bits at a time (the same loop bodies run), negative INTEGERs and extension ranges beyond the form-based part of R3.int, and the composition of the primitives into whole messages beyond the listed rules."
+	c.Explanation = "Static check of the inputs and error discipline of the aligned-PER encoder (C03). Decided: (R0.nilglobal) the codec does not dereference a never-initialised package-level pointer on its way (it would panic on every message); (R3.tag) for all structs of ngapType: every aper tag part belongs to the vocabulary the codec parses and its number parses, fields are exported, `optional` sits only on nil-able fields, every CHOICE use site carries valueLB:0,valueUB:n-1 for its n alternatives, ENUMERATED bounds equal the declared enumerators 0..UB, open-type fields name an earlier field, every alternative of an open type has a referenceFieldValue that is unique in its type and equals ProtocolIEID<Field> resp. the procedure code of TS 38.413 9.4.4 for the three message-class containers, <T>Present<Field> constants equal field indices; (R3.schema) every struct of ngapType has exactly the fields, field order, constraint tags and Go types, and every constant (enumerators, Present indices, IE ids, procedure codes) the value, of the frozen TS 38.413 schema table (5630 rows): a widened root, an edited bound, a renumbered enumerator or a moved field changes the encoding of every value of that type and is reported with the row; (R3.types) the tags of the leaf types on the emulator's path equal TS 38.413 9.4.5; (R3.err) in the encoder no error that was created or received is lost: on every path from its creation it is returned or tested, except calls proven infallible (putBitsValue of a constant that fits); (R3.len) the length determinant encoder emits X.691 10.9 forms: one octet 0xxxxxxx up to 127, two octets 10xxxxxx xxxxxxxx up to 16383 (bit provenance), with the same thresholds the decoder uses; (R3.strlen) in the four BIT/OCTET STRING primitives, on every path up to the first length determinant, the count is offset by the lower bound exactly when the size is constrained with ub < 64K and is sent as n itself with the general determinant (X.691 10.9.3.3 / 10.9.3.5), on the encoder and the decoder side; (R3.input) no encoder primitive stores into a byte slice it was handed, the idempotent padding mask of appendBitString excepted: encoding leaves the encoded value unchanged; (R3.underflow) every unsigned `x - c` of the encoder that reaches another primitive (the octets-minus-one length field of large constrained INTEGERs among them) has x >= c on all paths; (R3.int) INTEGER octet counting: constrained ranges above 64K count octets of the non-negative value (shift 8), unconstrained/extended ones of the two's complement value (shift 7); (R3.clone) encoder and decoder agree where they are clones: constrained-whole-number guard chains, octets-of-range loops, length-range guards, SEQUENCE OF bounds and lower-bound handling; (R3.mask) BIT STRING padding bits of the last octet are cleared before they reach the wire; (R3.bits) putBitString and putBitsValue place the bits where the bit stream defines them: for every bit offset 0..7 and every length of 1..33 (putBitsValue: 1..64) bits, with symbolic contents, output stream position p carries input position p - offset, nothing else is set and the offset advances by the length (a finite partition of the primitives' control flow folded on the abstract evaluator, index checks on); (R3.int, on the evaluator) for non-negative values under the constraints 0..2^32-1, 0..2^40-1 and without bounds, the value classes the code distinguishes (shift loops or bits.Len64) are each written with the X.691 number of octets, announced in the length field, and cover the range. (R3.content) appendOctetString, folded for eleven (lower bound, upper bound, length) cases with symbolic octets - fixed, constrained with the length at either bound and inside, lower bound zero with and without contents, semi-constrained, fragment-sized -, ends its output with exactly the octets it was given, in order, octet-aligned. NOT decided: bit patterns of strings longer than 33 bits at a time (the same loop bodies run), negative INTEGERs and extension ranges beyond the form-based part of R3.int, and the composition of the primitives into whole messages beyond the listed rules."
 	c.Assumptions = []string{"TS 38.413 constraints were transcribed by hand for the listed leaf types", "reflect is used only on exported fields of exported struct types (checked by R3.tag)"}
 	r0nilglobal(c, ngapEntries(c)...)
 	s := buildSchema(c)
